@@ -153,7 +153,7 @@ impl SemanticState {
 
         for (extern_path, attributes) in &module.extern_types {
             let mut size = None;
-            let mut alignment = None;
+            let mut alignment: Option<usize> = None;
             for attribute in attributes {
                 let Some((ident, exprs)) = attribute.function() else {
                     continue;
@@ -182,6 +182,11 @@ impl SemanticState {
             let alignment = alignment.with_context(|| {
                 format!("failed to find `align` attribute for extern type `{extern_path}` in module `{path}`")
             })?;
+
+            // Alignments are powers of two; zero would later be divided by.
+            if !alignment.is_power_of_two() {
+                anyhow::bail!("alignment {alignment} of extern type `{extern_path}` in module `{path}` is not a power of two");
+            }
 
             let extern_path = path.join(extern_path.as_str().into());
 
